@@ -8,7 +8,7 @@
 //!     S  `scan_repository`: stats.files_scanned and the files that have hunks;  R  its `paths`
 //!     Q / QR  the same for `create_simple_plan` (the `replace` planner, literal mode)
 //!     The `O` section (ignore oracle) is for the Lean model only.
-//! `isbinary <level> <content>` -> `b scanned` | `b skipped`: a one-file tree through `scan_repository`; the content
+//! `isbinary <level> <content>` -> `b scanned|skipped q planned|skipped` (q = the `replace` planner, create_simple_plan): a one-file tree through `scan_repository`; the content
 //!     carries the search term `foo_bar` on a line of its own, so "no hunk" means the binary sniff skipped the file.
 //! `globs n pat… <path>` -> `g 0|1|err`: `build_globset(pats)` on a relative path.
 //! `hunkfilter E n value… L <regex|-> T n node…` -> `h <file:line:variant…>` hunks of `scan_repository` with the exclusions.
@@ -108,18 +108,28 @@ fn isbinary(f: &[&str]) -> String {
     let root = fresh("b");
     std::fs::write(root.join("data"), &content).unwrap();
     let opts = PlanOptions { unrestricted_level: level, ..PlanOptions::default() };
-    let out = match scan_repository(&root, "foo_bar", "baz_qux", &opts) {
+    let b = match scan_repository(&root, "foo_bar", "baz_qux", &opts) {
         Ok(plan) => {
             if plan.matches.is_empty() {
-                "b skipped"
+                "skipped"
             } else {
-                "b scanned"
+                "scanned"
             }
         },
-        Err(_) => "b err",
+        Err(_) => "err",
+    };
+    let q = match create_simple_plan("foo_bar", "baz_qux", vec![root.clone()], &opts, false) {
+        Ok(plan) => {
+            if plan.matches.is_empty() {
+                "skipped"
+            } else {
+                "planned"
+            }
+        },
+        Err(_) => "err",
     };
     cleanup(&root);
-    out.to_string()
+    format!("b {} q {}", b, q)
 }
 
 fn globs(f: &[&str]) -> String {
